@@ -1,12 +1,12 @@
-(* Obligation C18/cell_run_step.  Statement as printed by Coq from Inferno.C18.DelayAdjProofs; proof by reference.
+(* Obligation C18/cell_run_step.  Statement as printed by Coq from Inferno.C18.EventProofs; proof by reference.
    This file contains nothing else, so the statement cannot be weakened quietly. *)
 From Coq Require Import List ZArith Bool Reals Lra Lia.
-From Inferno Require Import Base.Num Base.NumR Gen.Stdkernels C18.DelayAdj C18.DelayAdjProofs.
+From Inferno Require Import Base.Num Base.NumR C18.DelayAdj C18.EventProofs.
 Import ListNotations.
 Open Scope R_scope.
 Theorem cell_run_step : forall (red : list R -> R) (c : cellcfg RN) (prefix : list (stepin RN)) (i : stepin RN),
   cell_run RN red c {| cs_pre := None; cs_post := None |} (prefix ++ [i]) =
   cell_run RN red c {| cs_pre := None; cs_post := None |} prefix ++
   [cell_step RN red c (state_after red c {| cs_pre := None; cs_post := None |} prefix) i].
-Proof. exact (@Inferno.C18.DelayAdjProofs.cell_run_step). Qed.
+Proof. exact (@Inferno.C18.EventProofs.cell_run_step). Qed.
 Print Assumptions cell_run_step.
